@@ -167,4 +167,27 @@ def judge_reply(block, key):
     proto = vals(b'sec-websocket-protocol')
     ext = [t.strip() for v in vals(b'sec-websocket-extensions') for t in v.split(b',')]
     deflate = any(e.split(b';')[0].strip() == b'permessage-deflate' for e in ext)
+    for e in ext:
+        parts = [x.strip() for x in e.split(b';')]
+        if parts[0] != b'permessage-deflate':
+            continue
+        seen = set()
+        for prm in parts[1:]:
+            name, eq, val = prm.partition(b'=')
+            name, val = name.strip(), val.strip()
+            bad = None
+            if name in seen:
+                bad = 'repeated'
+            elif name in (b'server_no_context_takeover', b'client_no_context_takeover'):
+                bad = 'has a value' if eq else None
+            elif name in (b'server_max_window_bits', b'client_max_window_bits'):
+                if not (val.isdigit() and not val.startswith(b'0') and 8 <= int(val) <= 15):
+                    bad = 'value %r' % val
+            else:
+                bad = 'unknown'
+            seen.add(name)
+            if bad:
+                # RFC 7692 7.1: the client must fail the connection; the property's "if and only if" reads the other way.
+                # Either outcome is accepted, everything else about the attempt is still judged.
+                return ('either', 'permessage-deflate parameter %r: %s' % (name, bad), proto[0].decode() if proto else None, deflate)
     return ('ready', proto[0].decode() if proto else None, deflate)
